@@ -32,3 +32,16 @@ for fl, wh, t in ((10, 0, "quick"), (10, 1, "thorough"), (10, 2, "thorough"), (1
         "%s= field of a hash string, %d arbitrary characters: accepted exactly for a minimal decimal below 2^32, value decoded exactly (never reduced modulo 2^32)" % ("mtp"[wh], fl),
         defs=["-DFLEN=%d" % fl, "-DWHICH=%d" % wh], tier=t, timeout=1500, bound="none on the field content (constant field length %d, full character set); rest of the string is a fixed valid template" % fl,
         cbmc=["--unwind", "100", "--unwinding-assertions", "--object-bits", "10"], assumes=["sodium_base642bin and argon2_validate_inputs are accepting stubs here"]))
+
+SCA = ["crypto_pwhash_argon2*(API), crypto_pwhash_scryptsalsa208sha256_ll, escrypt_r / gensalt_r / parse_setting are assumed callees (logging stubs)"]
+OBLIGATIONS += [
+    ob("c08.f.dispatch", "harness/pwhash_misc.c", "hf_dispatch", ["crypto_pwhash", "crypto_pwhash_str_verify", "crypto_pwhash_str_needs_rehash"], "generic API: dispatch on algorithm id / string prefix; anything else => -1 / EINVAL without hashing (all 11-character prefixes)",
+       defs=["-DPART=0"], assumes=SCA, cbmc=["--unwind", "20", "--unwinding-assertions"]),
+    ob("c08.f.scrypt.params", "harness/pwhash_misc.c", "hf_scrypt_params", ["pickparams"], "scrypt parameter picking for every (opslimit, memlimit): N_log2 in 1..63, r = 8, r*p < 2^30", defs=["-DPART=1"], assumes=SCA, cbmc=["--unwind", "66", "--unwinding-assertions"]),
+    ob("c08.f.scrypt.raw", "harness/pwhash_misc.c", "hf_scrypt_raw", ["crypto_pwhash_scryptsalsa208sha256"], "scrypt raw API: limits refused before the KDF runs; in-range request forwarded with the picked parameters and a 32-byte salt",
+       defs=["-DPART=1"], assumes=SCA, cbmc=["--unwind", "130", "--unwinding-assertions", "--object-bits", "12"], bound="values: outlen <= 128"),
+    ob("c08.f.scrypt.str_verify", "harness/pwhash_misc.c", "hf_scrypt_str_verify", ["crypto_pwhash_scryptsalsa208sha256_str_verify", "sodium_strnlen"], "scrypt str_verify: wrong length rejected without hashing; 0 iff the recomputed string equals the given one",
+       defs=["-DPART=1"], assumes=SCA, cbmc=["--unwind", "114", "--unwinding-assertions"], bound="values: string length <= 110"),
+    ob("c08.f.scrypt.needs_rehash", "harness/pwhash_misc.c", "hf_scrypt_needs_rehash", ["crypto_pwhash_scryptsalsa208sha256_str_needs_rehash"], "scrypt needs_rehash: -1 malformed, 1 different parameters, 0 equal",
+       defs=["-DPART=1"], assumes=SCA, cbmc=["--unwind", "114", "--unwinding-assertions"], bound="values: string length <= 110"),
+]
